@@ -98,5 +98,5 @@ Section Spec.
 
   (* the reference traversal: calls in call order, final result *)
   Definition spec_visit (v : jv) : list event * Z :=
-    let '(tr, res) := machine (flatten v [] PNone KNone 0) Run [] in (rev tr, res).
+    let '(tr, res) := machine (flatten v [] PNone KNone 0) Run [] in (rev_append tr [], res).   (* = rev tr *)
 End Spec.
